@@ -528,6 +528,28 @@ def same_object_stream(ctx):
 def recheck_kept(ctx):
     """results produced earlier must still read the same (no shared work buffers), operands must be unchanged"""
     n = 0
+    I = _I()
+
+    def bufs(x):
+        if isinstance(x, I):
+            return [b for b in (x.lo, x.hi) if isinstance(b, np.ndarray) and b.ndim > 0]
+        return [x] if isinstance(x, np.ndarray) and x.ndim > 0 else []
+
+    aliased = False
+    for res, c0, (op, l, r), (L, cl), (R, cr) in KEEP:
+        if aliased or not isinstance(res, I):
+            break
+        # the result is a NEW value: not one of the operand objects, and not sharing memory with them
+        # (0 + X, X * 1, X - 0 … are no exceptions: a caller who later updates X in place must not see
+        # an earlier result move)
+        for side, O in (("left", L), ("right", R)):
+            if res is O or any(np.shares_memory(a, b) for a in bufs(res) for b in bufs(O)):
+                ctx.fail({"op": op, "lkind": l[0], "rkind": r[0], "symptom": "result-aliases-operand", "call": "Interval operator (aliasing)"},
+                         {"op": op, "l": _jd(l), "r": _jd(r), "aliased_operand": side, "same_object": res is O},
+                         f"the result of {l} {op} {r} {'IS' if res is O else 'shares memory with'} its {side} operand: "
+                         f"modifying the operand afterwards changes the result")
+                aliased = True
+                break
     for res, c0, (op, l, r), (L, cl), (R, cr) in KEEP:
         n += 1
         c1 = canon_impl(res)
